@@ -106,6 +106,11 @@ class C15:
                              # crate_types ["bin"] too; only kind ["bin"] marks a binary)
                              "aux": [a for a in ["test", "example", "bench", "build"] if rng.random() < 0.3],
                              "own_pkg": rng.random() < 0.3})
+            # a libcnb.rs buildpack's own package.toml may name other workspace buildpacks (libcnb:<id>): they are
+            # dependencies like a composite's
+            for j, L in enumerate(libs):
+                if L["own_pkg"] and j > 0 and rng.random() < 0.7:
+                    L["pkg_deps"] = [x["id"] for x in rng.sample(libs[:j], rng.randint(1, min(2, j)))]
             comps = []
             for k in range(rng.randint(0, 3)):
                 name = "meta%d" % k
@@ -153,6 +158,12 @@ class C15:
             cases.append({"libs": libs, "comps": comps, "foreign": foreign, "cwd": cwd, "release": rng.random() < 0.3,
                           "pkgdir": rng.choice(["default", "default", "abs", "rel"]),
                           "seed_ids": [x["id"] for x in libs + comps if rng.random() < 0.6], "seed_kind": rng.randint(0, 3)})
+        # designed: a libcnb.rs buildpack whose own package.toml depends on another one, packaged from its own directory
+        cases.append({"libs": [{"dir": "buildpacks/base", "id": "verif/base", "pkg": "pbase", "bins": ["pbase"], "extra": "", "aux": []},
+                               {"dir": "buildpacks/web", "id": "verif/web", "pkg": "pweb", "bins": ["pweb"], "extra": "", "aux": [],
+                                "own_pkg": True, "pkg_deps": ["verif/base"]},
+                               {"dir": "buildpacks/other", "id": "verif/other", "pkg": "pother", "bins": ["pother"], "extra": "", "aux": []}],
+                      "comps": [], "foreign": [], "cwd": "buildpacks/web", "release": False, "pkgdir": "default", "seed_ids": [], "seed_kind": 0})
         # designed: a composite WITHOUT libcnb: dependencies (relative path + registry reference only), packaged from its own
         # directory and from the workspace root -- its package.toml is normalised although nothing had to be packaged before it
         for cwd in ("meta/solo", ""):
@@ -192,7 +203,8 @@ class C15:
             open(os.path.join(d, "Cargo.toml"), "w").write(cargo)
             open(os.path.join(d, "buildpack.toml"), "w").write(f'api = "0.10"\n\n[buildpack]\nid = "{L["id"]}"\nversion = "0.1.0"\n{L["extra"]}')
             if L.get("own_pkg"):
-                open(os.path.join(d, "package.toml"), "w").write('# shipped with the buildpack\n[buildpack]\nuri = "."\n\n[platform]\nos = "windows"\n')
+                deps = "".join(f'\n[[dependencies]]\nuri = "libcnb:{i}"\n' for i in L.get("pkg_deps", []))
+                open(os.path.join(d, "package.toml"), "w").write('# shipped with the buildpack\n[buildpack]\nuri = "."\n\n[platform]\nos = "windows"\n' + deps)
         for C in c["comps"]:
             d = os.path.join(root, C["dir"])
             os.makedirs(d, exist_ok=True)
@@ -322,7 +334,7 @@ class C15:
             return cq_bytes(x.encode())
         ws = []
         for L in c["libs"]:
-            ws.append(f"(mkBp {B(L['dir'])} {B(L['id'])} (KLib {B(L['pkg'])} {cq_list([B(x) for x in L['bins']])}))")
+            ws.append(f"(mkBp {B(L['dir'])} {B(L['id'])} (KLib {B(L['pkg'])} {cq_list([B(x) for x in L['bins']])} {cq_list([B(x) for x in L.get('pkg_deps', [])])}))")
         for C in c["comps"]:
             deps = cq_list(["(%s %s)" % ({"lib": "DLib", "rel": "DRel", "uri": "DUri"}[k], B(v)) for k, v in C["deps"]])
             ws.append(f"(mkBp {B(C['dir'])} {B(C['id'])} (KComp {B(C.get('uri', '.'))} {B(C.get('os') or 'linux')} {deps}))")
